@@ -523,7 +523,16 @@ impl World {
                 }
                 OP_DROP => {
                     drop(p);
-                    drop(in_hand.take().unwrap());
+                    let o = in_hand.take().unwrap();
+                    if (o.id + ctx.id) % 3 == 0 {
+                        // the holder panics: the object goes back while its thread unwinds
+                        let _ = std::panic::catch_unwind(std::panic::AssertUnwindSafe(move || {
+                            let _o = o;
+                            std::panic::resume_unwind(Box::new(()))
+                        }));
+                    } else {
+                        drop(o);
+                    }
                     10
                 }
                 OP_TAKE => {
